@@ -400,3 +400,81 @@ def r09_5(ctx):
                             if z and b.edge_dominates(sb, 0, z[0], bi):
                                 ok = True
         ctx.ob("message-on-none-arm", ok, site(b, bi), "the error is built only when detection returned None" if ok else "the 'unable to detect' error is not tied to detection returning None")
+
+
+@rule("R09.6", 4, "the capture reader marks end-of-input only on evidence of EOF from a successful source read (never on a short read or an error edge)", ["C09", "C12"])
+def r09_6(ctx):
+    lib = ctx.lib
+    cap, guard = _capture_adts(lib)
+    adt = lib.adts[cap]
+    flags = [f["name"] for f in adt["variants"][0]["fields"] if f["ty"] == "bool"]
+    ctx.need(len(flags) == 1, f"expected one bool field (the EOF flag) in {cap}, found {flags}")
+    flag = flags[0]
+    src_fields = [f["name"] for f in adt["variants"][0]["fields"] if f["ty"] == "R"]
+    n = 0
+    for b in lib.bodies:
+        for bi in sorted(b.reach()):
+            for s in b.blocks[bi]["stmts"]:
+                if not (s["k"] == "assign" and s["p"]["pr"] and s["p"]["pr"][-1]["k"] == "field" and s["p"]["pr"][-1]["name"] == flag and s["p"]["pr"][-1].get("adt") == cap):
+                    continue
+                n += 1
+                rv = s["rv"]
+                key = f"eof-write:{b.name}"
+                # successful source reads in this body: (call block, Ok/Continue edge)
+                ok_edges = []
+                for cb, ct in b.calls():
+                    f = fn_of(ct) or {}
+                    if f.get("trait") == "std::io::Read" and f["name"] in ("read", "read_to_end", "read_exact", "read_to_string"):
+                        rtr = trace(b, ct["args"][0], passthrough_extra=("std::io::Read::take",))
+                        on_source = any(st[0] == "field" and st[1] in src_fields for st in rtr.steps)
+                        is_take = "std::io::Take<" in (f.get("self_ty") or "")
+                        if not on_source and is_take:
+                            # Take of the source
+                            for tb, tt in b.calls():
+                                if (fn_of(tt) or {}).get("def") == "std::io::Read::take":
+                                    t2 = trace(b, tt["args"][0], passthrough_extra=("std::io::Read::by_ref",))
+                                    if any(st[0] == "field" and st[1] in src_fields for st in t2.steps):
+                                        on_source = True
+                        if on_source:
+                            ok_edges.append((cb, ct, f["name"], is_take))
+                if rv["k"] == "use" and rv["op"].get("k") == "const":
+                    if rv["op"].get("v") is False:
+                        ctx.ob(key + ":false", True, site(b, line=s["line"]), "flag cleared", trivial=True)
+                        continue
+                    # const true: must follow a successful read_to_end of the source
+                    good = False
+                    why = "set to true without a successful read_to_end of the source on the path"
+                    for cb, ct, nm, is_take in ok_edges:
+                        if nm != "read_to_end":
+                            continue
+                        import r_bin
+
+                        sws = r_bin.result_switches(b, ct["dest"]["l"])
+                        dom_ok = any(all(b.dominates(o, bi) for o in [x for x in oks][:1]) and oks for sb, errs, oks in sws)
+                        if not dom_ok:
+                            why = "set to true on a path that includes the read's error edge (a failing source would look exhausted)"
+                            continue
+                        if is_take:
+                            # bounded read: EOF only if the limit was not used up
+                            lim = False
+                            for lb, lt in b.calls():
+                                if (fn_of(lt) or {}).get("name") == "limit" and "Take" in (fn_of(lt) or {}).get("def", ""):
+                                    sw = b.blocks[lt["target"]]
+                                    for st in sw["stmts"]:
+                                        if st["k"] == "assign" and st["rv"]["k"] == "binop" and st["rv"]["op"] in ("Gt", "Ne") and const_value(st["rv"]["b"]) == 0:
+                                            te = sw["term"]["otherwise"]
+                                            if b.edge_dominates(lt["target"], "otherwise", te, bi):
+                                                lim = True
+                            if not lim:
+                                why = "a bounded (Take) read ended: without checking the remaining limit this may be the cap, not EOF"
+                                continue
+                        good = True
+                    ctx.ob(key + ":true-after-read_to_end", good, site(b, line=s["line"]), "EOF recorded after read_to_end returned Ok" + (" with unused limit" if good and any(e[3] for e in ok_edges) else "") if good else why)
+                elif rv["k"] == "binop" and rv["op"] == "Eq" and const_value(rv["b"]) == 0:
+                    tr = trace(b, rv["a"])
+                    src = tr.origin[2] if tr.origin and tr.origin[0] == "call" else None
+                    good = bool(src and any(src is e[1] and e[2] == "read" for e in ok_edges) and any(st[0] == "downcast" and st[1] in ("Continue", "Ok") for st in tr.steps))
+                    ctx.ob(key + ":zero-length-read", good, site(b, line=s["line"]), "EOF iff the source's read returned Ok(0)" if good else "EOF derived from something other than the source read's Ok(0)")
+                else:
+                    ctx.ob(key + ":unrecognised", False, site(b, line=s["line"]), f"end-of-input flag computed by `{rv['k']} {rv.get('op', '')}`: not one of the recognised EOF tests (Ok(0) from read; Ok from read_to_end) — a short read is not EOF")
+    ctx.ob("eof-flag-writes", n >= 3, cap, f"{n} write(s) to `{flag}`")
